@@ -172,3 +172,9 @@ func VerifTargetUsesMaxError(target any) bool {
 // VerifEdgeQueryPaths counts how often the optimized and the brute-force
 // search of EdgeQuery ran (verification builds only).
 var VerifEdgeQueryPaths struct{ Optimized, BruteForce int64 }
+
+// VerifProgress is a cheap summary of the index's build state (plain reads):
+// status word, number of shapes already applied, number of index cells.
+func (s *ShapeIndex) VerifProgress() (status int32, pending int32, cells int, mapLen int) {
+	return s.status, s.pendingAdditionsPos, len(s.cells), len(s.cellMap)
+}
